@@ -107,3 +107,21 @@ package raftlog
 //@   ensures result == nil && asked && li >= 0 && fi != -1 ==> curDel && locked
 //@   loop 1
 //@     invariant locked && (curDel || (rangeindex < len(extra) - 1 && extra[len(extra)-1] == cur0))
+
+//@ func (*FileWrapV2).Name
+//@   trusted_assigns nothing
+
+// A conflicting append invalidates the cached size/payload of EVERY slot from the first rewritten one on
+// (a stale cache entry would serve the discarded payload and misplace the next write).
+//@ func (*FileWrapV2).WriteSlice
+//@   requires fw != nil && 0 <= slotIdx
+//@   call .Seek
+//@     frame nothing
+//@   call .Write
+//@     frame nothing
+//@   call MarshalUint32
+//@     frame nothing
+//@   ensures result == nil && clearSlots && slotIdx < len(old(fw.cache)) ==> (forall j int :: slotIdx <= j && j < endSlotIdx && j < len(old(fw.cache)) ==> !fw.cache[j].szCached && !fw.cache[j].slotCached && len(fw.cache[j].data) == 0)
+//@   loop 1
+//@     invariant fw != nil && fw.cache == old(fw.cache) && slotIdx <= i
+//@     invariant forall j int :: slotIdx <= j && j < i && j < len(fw.cache) ==> !fw.cache[j].szCached && !fw.cache[j].slotCached && len(fw.cache[j].data) == 0
